@@ -157,7 +157,9 @@ class SchedLock:
     def _me():
         return getattr(threading.current_thread(), "sched_idx", None)
 
-    def acquire(self, blocking=True, timeout=-1):
+    def acquire(self, blocking=True, timeout=-1, block=None):  # `block` is multiprocessing's spelling of `blocking`
+        if block is not None:
+            blocking = block
         """Same signature as threading / multiprocessing locks.  A finite timeout is modelled
         adversarially: wall-clock time does not exist under an owned schedule, so a timed wait
         on a held lock may expire whenever the waiter is scheduled while the lock is still
